@@ -196,7 +196,7 @@ def lmp_cfg(frags, emit):
 
 
 def collect(tier, sd, out, want_hist=True):
-    frags = '{"F2p", "F4p", "F3r", "F4b", "F1p"}' if tier == "quick" else atomsops.ALLF.replace('"E", ', '').replace(', "E"', '')
+    frags = '{"F2p", "F4p", "F3r", "F3e", "F4b", "F1p"}' if tier == "quick" else atomsops.ALLF.replace('"E", ', '').replace(', "E"', '')
     res = run_tlc("MC_Lmp", lmp_cfg(frags, False), workers=8, timeout=1200, tag="mclmp")
     if res.error:
         raise MachineryError("MC_Lmp failed:\n" + res.error)
